@@ -40,7 +40,7 @@ func loadKnown() {
 	}
 	for _, f := range doc.Findings {
 		if strings.EqualFold(f.Status, "open") {
-			knownSet[f.Property+"|"+f.Signature] = true
+			knownSet[f.Property+"|"+normSig(f.Property, f.Signature)] = true
 		}
 	}
 }
@@ -48,5 +48,10 @@ func loadKnown() {
 // IsKnown reports whether (property, signature) is listed as an open finding.
 func IsKnown(property, sig string) bool {
 	knownOnce.Do(loadKnown)
-	return knownSet[property+"|"+sig]
+	return knownSet[property+"|"+normSig(property, sig)]
+}
+
+// normSig strips an optional "<property>/" prefix so "C16/x" and "x" name the same finding.
+func normSig(property, sig string) string {
+	return strings.TrimPrefix(sig, property+"/")
 }
